@@ -501,36 +501,51 @@ func drawLeaf(t *rapid.T, forArray bool) (*j5sgen.Type, []cand) {
 			p = &pp
 			r.Pattern = sp(p.re)
 		}
-		if p == nil {
-			if rapid.Bool().Draw(t, "hasmin") {
-				r.MinLength = up(uint64(rapid.IntRange(0, 4).Draw(t, "min")))
+		// length bounds combine freely with a pattern; a quarter of the time the two
+		// bounds are equal (an exact length)
+		if p == nil || rapid.Bool().Draw(t, "lengthwithpattern") {
+			exact := rapid.IntRange(0, 3).Draw(t, "exactlength") == 0
+			base := rapid.IntRange(0, 4).Draw(t, "min")
+			if p != nil {
+				// a length some witness of the pattern has, so that both verdicts occur
+				w := rapid.SampledFrom(append(append([]string{}, p.match...), p.nonMatch...)).Draw(t, "lenwitness")
+				base = utf8.RuneCountInString(w)
 			}
-			if rapid.Bool().Draw(t, "hasmax") {
+			if exact || rapid.Bool().Draw(t, "hasmin") {
+				r.MinLength = up(uint64(base))
+			}
+			switch {
+			case exact:
+				r.MaxLength = up(uint64(base))
+			case rapid.Bool().Draw(t, "hasmax"):
 				lo := 0
 				if r.MinLength != nil {
 					lo = int(*r.MinLength)
 				}
 				r.MaxLength = up(uint64(lo + rapid.IntRange(0, 4).Draw(t, "maxspan")))
 			}
-			lens := map[int]bool{0: true, 1: true}
-			if r.MinLength != nil {
-				m := int(*r.MinLength)
-				lens[m], lens[m+1] = true, true
-				if m > 0 {
-					lens[m-1] = true
-				}
+		}
+		lens := map[int]bool{0: true, 1: true}
+		if r.MinLength != nil {
+			m := int(*r.MinLength)
+			lens[m], lens[m+1] = true, true
+			if m > 0 {
+				lens[m-1] = true
 			}
-			if r.MaxLength != nil {
-				m := int(*r.MaxLength)
-				lens[m], lens[m+1] = true, true
-				if m > 0 {
-					lens[m-1] = true
-				}
+		}
+		if r.MaxLength != nil {
+			m := int(*r.MaxLength)
+			lens[m], lens[m+1] = true, true
+			if m > 0 {
+				lens[m-1] = true
 			}
+		}
+		if p == nil || r.MinLength != nil || r.MaxLength != nil {
 			for n := range lens {
 				cs = append(cs, cand{S: sp(runesOfLen(n, false))}, cand{S: sp(runesOfLen(n, true)), Note: "multi-byte runes"})
 			}
-		} else {
+		}
+		if p != nil {
 			for _, m := range p.match {
 				cs = append(cs, cand{S: sp(m)})
 			}
